@@ -75,7 +75,7 @@ CHECKS = {
         "assumptions": ["names ending in .butler-rename-N are never generated (implicit precondition of the commit phase)"],
         "required_classes": {"quick": ["rel:swap", "rel:chain", "rel:rename-or-dup-without-original", "rel:source-of-rename-also-patched", "commit:overlay", "commit:ghost", "kindchange:d->f", "kindchange:f->d", "kindchange:d->l"],
                              "thorough": ["rel:swap", "rel:chain", "rel:rename-or-dup-without-original", "rel:source-of-rename-also-patched", "commit:overlay", "commit:ghost", "series:bsdiff"]},
-        "stages": [rapid("inplace", "TestProp", 4000, 200000, qs=16, ts=16, qt=600, tt=5400)],
+        "stages": [rapid("inplace", "TestProp", 10000, 200000, qs=16, ts=16, qt=600, tt=5400)],
     },
     "C07": {
         "title": "Optimizing a patch never changes what it produces",
@@ -90,7 +90,7 @@ CHECKS = {
         "assumptions": [],
         "required_classes": {"quick": ["series:bsdiff", "new-file:shorter-than-partitions", "opt:ForceMapAll", "series:bsdiff-against-differently-named-old-file"],
                              "thorough": ["series:bsdiff", "new-file:shorter-than-partitions", "opt:ForceMapAll", "series:bsdiff-against-differently-named-old-file", "series:excluded-by-size-limit"]},
-        "stages": [rapid("optimize", "TestProp", 4800, 288000, qs=16, ts=16, qt=600, tt=5400)],
+        "stages": [rapid("optimize", "TestProp", 12000, 288000, qs=16, ts=16, qt=600, tt=5400)],
     },
     "C03": {
         "title": "Interrupted patch application resumes from any checkpoint to the same result",
@@ -131,7 +131,7 @@ CHECKS = {
         "assumptions": [],
         "required_classes": {"quick": ["skipped:bsdiff", "skipped:rsync", "skipped:wholefile", "selected:bsdiff", "skipped:bsdiff-target-2049"],
                              "thorough": ["skipped:bsdiff", "skipped:rsync", "skipped:wholefile", "selected:bsdiff", "skipped:bsdiff-target-2049", "skipped:emptyfile"]},
-        "stages": [rapid("whitelist", "TestProp", 7200, 256000, qs=16, ts=16, qt=600, tt=5400),
+        "stages": [rapid("whitelist", "TestProp", 12000, 256000, qs=16, ts=16, qt=600, tt=5400),
                    rapid("magic", "TestMagic", 12, 200, qs=4, ts=8, qt=600, tt=3000, shrinktime="5s")],
     },
     "C09": {
@@ -203,7 +203,7 @@ CHECKS = {
         "assumptions": [],
         "required_classes": {"quick": ["dir:identical", "dir:deviates", "damage:hides-subtree", "damage:length-change-crossing-block-boundary", "damage:flip-at-block-boundary-class"],
                              "thorough": ["dir:identical", "dir:deviates", "damage:hides-subtree", "damage:length-change-crossing-block-boundary", "damage:flip-at-block-boundary-class", "damage:retarget"]},
-        "stages": [rapid("wounds", "TestProp", 9600, 768000, qs=16, ts=16, qt=600, tt=5400)],
+        "stages": [rapid("wounds", "TestProp", 28800, 768000, qs=16, ts=16, qt=600, tt=5400)],
     },
     "C06": {
         "title": "Healing from an archive restores any damaged directory to the signed build",
@@ -219,7 +219,7 @@ CHECKS = {
         "assumptions": ["the healing archive is the zip of the pristine build, as in wharf's scenario tests"],
         "required_classes": {"quick": ["dir:already-valid", "dir:healed", "damage:hides-subtree", "damage:kind-swap:d->link", "damage:kind-swap:d->file"],
                              "thorough": ["dir:already-valid", "dir:healed", "damage:hides-subtree", "damage:kind-swap:d->link", "damage:kind-swap:d->file", "damage:whole-directory-delete", "damage:whole-directory-empty"]},
-        "stages": [rapid("heal", "TestProp", 3200, 192000, qs=16, ts=16, qt=600, tt=5400, schedule_dependent=True)],
+        "stages": [rapid("heal", "TestProp", 9600, 192000, qs=16, ts=16, qt=600, tt=5400, schedule_dependent=True)],
     },
     "C16": {
         "title": "Validation always terminates and a clean verdict is never caused by interruption",
@@ -237,7 +237,7 @@ CHECKS = {
         "assumptions": ["a case that needs more than 60s (120s for the >1024-wound stage) is treated as a hang candidate; normal cases take milliseconds to ~1s"],
         "required_classes": {"quick": ["cancel:before-start", "cancel:in-callback", "cancel:after-delay", "consumer:failfast", "consumer:heal-partial", "tree:>1024-entries", "tree:file->1024-blocks"],
                              "thorough": ["cancel:before-start", "cancel:in-callback", "cancel:after-delay", "consumer:failfast", "consumer:heal-partial", "consumer:woundsfile-unwritable", "tree:>1024-entries", "many-damage:last-file"]},
-        "stages": [rapid("terminate", "TestProp", 4800, 192000, qs=16, ts=16, qt=600, tt=5400, schedule_dependent=True),
+        "stages": [rapid("terminate", "TestProp", 12000, 192000, qs=16, ts=16, qt=600, tt=5400, schedule_dependent=True),
                    rapid("manywounds", "TestMany", 96, 3200, qs=16, ts=16, qt=600, tt=5400, schedule_dependent=True, shrinktime="10s")],
     },
     "C18": {
@@ -276,7 +276,7 @@ CHECKS = {
         "assumptions": [],
         "required_classes": {"quick": ["checkpoint:after-last-message", "checkpoint:source-lags-message-offset", "msg:around-32KiB-buffer", "comp:gzip", "comp:brotli"],
                              "thorough": ["checkpoint:after-last-message", "checkpoint:source-lags-message-offset", "msg:around-32KiB-buffer", "msg:>4MiB", "comp:gzip", "comp:brotli"]},
-        "stages": [rapid("wire", "TestProp", 4800, 320000, qs=16, ts=16, qt=600, tt=5400)],
+        "stages": [rapid("wire", "TestProp", 9600, 320000, qs=16, ts=16, qt=600, tt=5400)],
     },
     "C14": {
         "title": "An overlay turns the old file into the new file, whatever the write pattern",
